@@ -123,6 +123,10 @@ def _py_eval(task):
     try:
         if how == 'no':
             r = structure.multiplicity(pos_argument(pos, no), sgno=no, cell_choice=cc)
+        elif cc == 'rhombohedral' and int(abs(hash(tuple(round(float(x), 6) for x in pos)))) % 3 == 0:
+            # the rhombohedral setting asked for by the PLAIN name plus cell_choice (a run-time string), instead of the 'r' suffix
+            base = name[:-1] if name.lower().endswith('r') and len(name) > 2 else name
+            r = structure.multiplicity(pos_argument(pos, no), sgname=base, cell_choice=''.join(list('rhombohedral')))
         else:
             r = structure.multiplicity(pos_argument(pos, no), sgname=spelled(name, no, cc, pos))
         return int(r)
